@@ -238,6 +238,11 @@ impl Monitor for C10 {
         let mut ys = gen::gen(cy, n, len, &mut rng);
         let mut a = *rng.pick(&[1.0, -1.0, 2.0, 0.5, -3.0, 0.0, 1.25, 7.0]);
         let mut b = *rng.pick(&[1.0, -1.0, 2.0, -0.5, 0.0, 3.0, 0.75]);
+        if !exact && rep % 5 == 1 {
+            // very small / very large units: an absolute threshold (noise gate, epsilon) shows only there
+            a = *rng.pick(&[8.673617379884035e-19, 1.152921504606847e18, 9.313225746154785e-10]);
+            b = a * *rng.pick(&[1.0, -1.5, 0.5]);
+        }
         if rep % 5 == 3 {
             // `cancel`: y = -x on stretches and a = b, so that the combined stream (and with it the
             // filter state) is exactly 0 at chosen steps
